@@ -1552,7 +1552,8 @@ def _to_scalar_BlockSeries(
         operator = _list_to_dict(operator)
     if isinstance(operator, dict):
         if check_hermitian and any(
-            isinstance(value, sympy.MatrixBase) and _is_not_hermitian(value)
+            isinstance(value, (sympy.MatrixBase, sympy.Expr))
+            and _is_not_hermitian(value)
             for value in operator.values()
         ):
             raise ValueError("Operator must be Hermitian.")
